@@ -16,6 +16,18 @@ func genC11(t *rapid.T) (schedCase, []opSpec) {
 	c := schedCase{Mode: rapid.SampledFrom([]string{"", "local", "local"}).Draw(t, "mode"), Users: schedUsers}
 	users := []string{"old1", "old2", "cur1", "new1"}
 	hot := rapid.SampledFrom(users[:2]).Draw(t, "hot")
+	// a store larger than any chunk a directory listing might be read in: list must still be one atomic step
+	filler := rapid.SampledFrom([]int{0, 0, 0, 0, 70, 150, 300}).Draw(t, "filler")
+	var fillers []string
+	if filler > 0 {
+		c.Users = append([]seedUser{}, schedUsers...)
+		for i := 0; i < filler; i++ {
+			n := fmt.Sprintf("f%03d", i)
+			c.Users = append(c.Users, seedUser{Name: n, PW: "fpw", Admin: i%9 == 0, PID: 1})
+			fillers = append(fillers, n)
+		}
+		vlib.Class("store:large(>64 entries)")
+	}
 	known := map[string][]string{"old1": {"old1pw"}, "old2": {"old2pw"}, "cur1": {"cur1pw"}, "root": {"rootpw"}, "new1": nil}
 	tag := 0
 	webOps := rapid.IntRange(0, 2).Draw(t, "webops") == 0
@@ -31,6 +43,11 @@ func genC11(t *rapid.T) (schedCase, []opSpec) {
 				u = rapid.SampledFrom(users).Draw(t, "user")
 			}
 			kind := rapid.SampledFrom([]string{"auth", "auth", "auth", "update", "update", "remove", "add", "setadmin", "list"}).Draw(t, "kind")
+			if filler > 0 && rapid.IntRange(0, 2).Draw(t, "big") != 0 {
+				// listings overlapping admin-flag changes (renames: the entry moves inside the directory) of users all over the directory
+				kind = rapid.SampledFrom([]string{"list", "setadmin", "setadmin", "remove", "listfull"}).Draw(t, "bigkind")
+				u = rapid.SampledFrom(fillers).Draw(t, "fuser")
+			}
 			op := opSpec{Kind: kind, User: u}
 			switch kind {
 			case "auth":
@@ -49,7 +66,7 @@ func genC11(t *rapid.T) (schedCase, []opSpec) {
 				known[u] = append(known[u], op.PW)
 			case "setadmin":
 				op.Admin = rapid.Bool().Draw(t, "adm")
-			case "list":
+			case "list", "listfull":
 				op.User = ""
 			}
 			if webOps && (kind == "auth" || kind == "update" || kind == "remove") {
@@ -83,9 +100,11 @@ func genC11(t *rapid.T) (schedCase, []opSpec) {
 	return c, probes
 }
 
-func initialState() mstate {
+func initialState() mstate { return initialStateOf(schedUsers) }
+
+func initialStateOf(us []seedUser) mstate {
 	m := mstate{}
-	for _, u := range schedUsers {
+	for _, u := range us {
 		m[u.Name] = mrec{u.PW, u.Admin}
 	}
 	return m
@@ -115,7 +134,7 @@ func TestC11Linearizable(t *testing.T) {
 				continue
 			}
 			// cross-talk / stamps sanity
-			bad, states := linearize(initialState(), out.Results)
+			bad, states := linearize(initialStateOf(c.Users), out.Results)
 			vlib.AddExtra("linearization_search_states", int64(states))
 			if bad >= 0 {
 				path := vlib.Violation(fmt.Sprintf("history not linearizable (mode=%q, first batch without a valid order: %d)", c.Mode, bad), "TestC11Linearizable",
